@@ -43,7 +43,11 @@ claim("C18","muxsim","fault_enumeration",
 claim("C12","loomsim","exploration",
  "108 scenarios (initial credit x writer polls x scripted acknowledge/close orders) each explored exhaustively by loom's DFS over all interleavings of the atomic operations and all C11-permitted load values, up to the preemption bound; oracles: no lost wake-up, credit conservation, no permission without credit, None after close.",
  "Exhaustive per scenario up to loom's preemption bound (3 quick / 5 thorough), two threads; the rest of the connection task is replaced by the scripted calls on the other thread.", "controlled-scheduler simulation of threads (loom) over the crate's own sync seam; replay = scenario + loom's deterministic DFS", "DESIGN.md §6 C12")
-for p in ["C01","C14","C19"]:
+NOTE_E4 = "Trusts penguin-simnet to behave like the part of tokio::net the crate uses (in-memory pipes: ordered, reliable TCP with back-pressure, half-close, refusal, reset; UDP with per-datagram latency) and tokio's paused clock + seeded current_thread scheduler for determinism; TLS is not simulated; payload bytes are excluded from the execution digest (tungstenite masks come from the OS RNG)."
+claim("C19","syssim","fault_enumeration",
+ "The real client runs against a scripted server (refuse / stall / HTTP 403 / orderly close after d / TCP reset after d / ignore after handshake / real healthy server, one behaviour per attempt) under the paused clock: every retry instant is compared exactly with the closed back-off formula, the give-up point with max_retry_count, and parked local connections must be echoed by the next healthy connection.",
+ NOTE_E4, "deterministic whole-system simulation (real client + server over a simulated tokio::net, virtual time) with scripted connection-lifecycle faults", "DESIGN.md §6 C19")
+for p in ["C01","C14"]:
     na(p, "check not built yet in this session (planned, see DESIGN.md §6); not claimed until its command exists")
 na("C09","pure codec function of one complete buffer (quantifier: inputs only): no schedule, clock, fault or interleaving for a simulator to decide; see DESIGN.md §6 C09")
 na("C17","outcome is a function of the TLS configuration cell alone; handshake randomness has no seam, so one seed cannot be one repeatable execution; see DESIGN.md §6 C17")
